@@ -1,3 +1,4 @@
+import numbers
 import time
 import networkx as nx
 import flowpaths.stdag as stdag
@@ -173,7 +174,7 @@ class kFlowDecomp(pathmodel.AbstractPathModelDAG):
             )
         )
 
-        if k <= 0 or not isinstance(k, int):
+        if isinstance(k, bool) or not isinstance(k, numbers.Integral) or k <= 0:
             utils.logger.error(f"{__name__}: k must be a positive integer, not {k}")
             raise ValueError(f"k must be a positive integer, not {k}")
         self.k = k
